@@ -1,13 +1,353 @@
-(* C10 property theorems: statements only, each closed by `exact`. *)
-From Coq Require Import ZArith List Bool.
+(* C10 property theorems: statements only, each closed by `exact`.
+   All statements are about the executable model Model/C10Model.v (tied to taxonmodel.py by the
+   correspondence run); `lower` (str.lower on label ids) is an arbitrary function.
+   `Inv`, `ops_wf`, `trace` are defined in Proofs/C10Inv.v / C10Bits.v; the first theorems
+   below say exactly what they mean. *)
+From Coq Require Import ZArith List Bool Permutation Sorted.
 From DV Require Import Model.PyPrims Model.C10Model Proofs.C10Proofs.
 Import ListNotations.
 Open Scope Z_scope.
 
-(* Label lookup returns exactly the members whose label matches under the namespace's, or the
-   call's, case-sensitivity setting, in membership order, and changes nothing. *)
+(* ================= 1. the invariant ================= *)
+
+(* what `Inv` says: members duplicate-free; member <-> has an accession index; indices in
+   [0,count); index map injective; reverse map consistent; bitmask memo sound *)
+Theorem inv_unfold : forall n : ns,
+  Inv n <->
+  NoDup (taxa n)
+  /\ (forall t, In t (taxa n) <-> exists i, alookup t (acc n) = Some i)
+  /\ (forall t i, alookup t (acc n) = Some i -> 0 <= i < count n)
+  /\ (forall t1 t2 i, alookup t1 (acc n) = Some i -> alookup t2 (acc n) = Some i -> t1 = t2)
+  /\ (forall t i, alookup i (rev n) = Some t <-> alookup t (acc n) = Some i)
+  /\ (forall t m, alookup t (bm n) = Some m ->
+        exists i, alookup t (acc n) = Some i /\ m = Z.shiftl 1 i)
+  /\ 0 <= count n.
+Proof. exact Inv_unfold_l. Qed.
+Print Assumptions inv_unfold.
+
+(* an empty namespace (any flags, any pre-existing Taxon objects) satisfies it *)
+Theorem inv_initial : forall (mut cs : bool) (lab : list (tid * lbl)) (nxt : tid),
+  Inv (w_ns (mkW (mkNs [] [] [] 0 [] mut cs) lab nxt))
+  /\ forall t, In t (taxa (w_ns (mkW (mkNs [] [] [] 0 [] mut cs) lab nxt))) -> t < nxt.
+Proof. exact inv_initial_l. Qed.
+Print Assumptions inv_initial.
+
+(* preserved by EVERY operation, including the identity-renaming deep copy *)
+Theorem inv_step : forall (lower : lbl -> lbl) (w : world) (o : op),
+  Inv (w_ns w) -> Inv (w_ns (fst (step lower w o))).
+Proof. exact step_inv. Qed.
+Print Assumptions inv_step.
+
+(* hence in every state of every history *)
+Theorem ops_inv : forall (lower : lbl -> lbl) (w : world) (ops : list op),
+  Inv (w_ns w) -> Inv (w_ns (run_world lower w ops)).
+Proof. exact ops_inv_l. Qed.
+Print Assumptions ops_inv.
+
+(* the same, self-contained: every state reachable from an empty namespace *)
+Theorem ops_inv_reachable :
+  forall (lower : lbl -> lbl) (mut cs : bool) (lab : list (tid * lbl)) (nxt : tid) (ops : list op),
+  let n := w_ns (run_world lower (mkW (mkNs [] [] [] 0 [] mut cs) lab nxt) ops) in
+  NoDup (taxa n)
+  /\ (forall t, In t (taxa n) <-> exists i, alookup t (acc n) = Some i)
+  /\ (forall t i, alookup t (acc n) = Some i -> 0 <= i < count n)
+  /\ (forall t1 t2 i, alookup t1 (acc n) = Some i -> alookup t2 (acc n) = Some i -> t1 = t2)
+  /\ (forall t i, alookup i (rev n) = Some t <-> alookup t (acc n) = Some i)
+  /\ (forall t m, alookup t (bm n) = Some m ->
+        exists i, alookup t (acc n) = Some i /\ m = Z.shiftl 1 i)
+  /\ 0 <= count n.
+Proof. exact ops_inv_reach_l. Qed.
+Print Assumptions ops_inv_reachable.
+
+(* `ops_wf`: add_taxon is only ever applied to Taxon objects that already exist *)
+Theorem ops_wf_unfold : forall (lower : lbl -> lbl) (w : world),
+  (ops_wf lower w [] <-> True)
+  /\ forall o r, ops_wf lower w (o :: r) <->
+       (match o with AddTaxon t => t < w_next w | _ => True end)
+       /\ ops_wf lower (fst (step lower w o)) r.
+Proof. exact ops_wf_unfold_l. Qed.
+Print Assumptions ops_wf_unfold.
+
+(* world-level invariant: additionally every member is an existing object (id below the
+   allocation counter), so that freshly created / deep-copied taxa are really new *)
+Theorem ops_world_inv : forall (lower : lbl -> lbl) (w : world) (ops : list op),
+  (Inv (w_ns w) /\ forall t, In t (taxa (w_ns w)) -> t < w_next w) ->
+  ops_wf lower w ops ->
+  Inv (w_ns (run_world lower w ops))
+  /\ forall t, In t (taxa (w_ns (run_world lower w ops))) -> t < w_next (run_world lower w ops).
+Proof. exact ops_winv_l. Qed.
+Print Assumptions ops_world_inv.
+
+(* ================= 2. stability of the bit ================= *)
+
+(* one step: a taxon that is a member before and after any operation (other than replacing the
+   namespace by a deep copy, which changes identities) keeps its accession index *)
+Theorem bit_stable : forall (lower : lbl -> lbl) (w : world) (o : op) (t : tid) (i : Z),
+  Inv (w_ns w) -> o <> DeepCopy ->
+  In t (taxa (w_ns w)) -> alookup t (acc (w_ns w)) = Some i ->
+  In t (taxa (w_ns (fst (step lower w o)))) ->
+  alookup t (acc (w_ns (fst (step lower w o)))) = Some i.
+Proof. exact bit_stable_l. Qed.
+Print Assumptions bit_stable.
+
+(* `trace` = all states a history passes through *)
+Theorem trace_unfold : forall (lower : lbl -> lbl) (w : world),
+  trace lower w [] = [w]
+  /\ forall o r, trace lower w (o :: r) = w :: trace lower (fst (step lower w o)) r.
+Proof. exact trace_unfold_l. Qed.
+Print Assumptions trace_unfold.
+
+(* histories (any operations): a taxon that is a member in every state of the run has the same
+   index, and the same single-bit mask 1<<i, in every state *)
+Theorem bit_stable_run :
+  forall (lower : lbl -> lbl) (w : world) (ops : list op) (t : tid) (i : Z),
+  (Inv (w_ns w) /\ forall t, In t (taxa (w_ns w)) -> t < w_next w) ->
+  ops_wf lower w ops ->
+  (forall w', In w' (trace lower w ops) -> In t (taxa (w_ns w'))) ->
+  alookup t (acc (w_ns w)) = Some i ->
+  forall w', In w' (trace lower w ops) ->
+    alookup t (acc (w_ns w')) = Some i
+    /\ exists n', taxon_bitmask (w_ns w') t = Ok (n', Z.shiftl 1 i).
+Proof. exact bit_stable_run_l. Qed.
+Print Assumptions bit_stable_run.
+
+Theorem bit_stable_run_nodeep :
+  forall (lower : lbl -> lbl) (w : world) (ops : list op) (t : tid) (i : Z),
+  Inv (w_ns w) -> ~ In DeepCopy ops ->
+  (forall w', In w' (trace lower w ops) -> In t (taxa (w_ns w'))) ->
+  alookup t (acc (w_ns w)) = Some i ->
+  forall w', In w' (trace lower w ops) -> alookup t (acc (w_ns w')) = Some i.
+Proof. exact bit_stable_run_nodeep_l. Qed.
+Print Assumptions bit_stable_run_nodeep.
+
+(* copy.deepcopy: the k-th member t is replaced by the fresh object f t; f t has the index and
+   the label of t; order, counter and flags are kept; nothing else has an index *)
+Theorem deepcopy_preserves_bits : forall (lower : lbl -> lbl) (w : world),
+  Inv (w_ns w) ->
+  let w' := fst (step lower w DeepCopy) in
+  let f := ren (fresh_map (taxa (w_ns w)) (w_next w)) in
+  taxa (w_ns w') = map f (taxa (w_ns w))
+  /\ (forall t, In t (taxa (w_ns w)) -> alookup (f t) (acc (w_ns w')) = alookup t (acc (w_ns w)))
+  /\ (forall x i, alookup x (acc (w_ns w')) = Some i ->
+        exists t, In t (taxa (w_ns w)) /\ x = f t /\ alookup t (acc (w_ns w)) = Some i)
+  /\ (forall t, In t (taxa (w_ns w)) -> label_of w' (f t) = label_of w t)
+  /\ (forall t, In t (taxa (w_ns w)) -> w_next w <= f t < w_next w')
+  /\ (forall t1 t2, In t1 (taxa (w_ns w)) -> In t2 (taxa (w_ns w)) -> f t1 = f t2 -> t1 = t2)
+  /\ count (w_ns w') = count (w_ns w)
+  /\ is_mut (w_ns w') = is_mut (w_ns w) /\ is_cs (w_ns w') = is_cs (w_ns w).
+Proof. exact deepcopy_preserves_bits_l. Qed.
+Print Assumptions deepcopy_preserves_bits.
+
+(* TaxonNamespace(other) / copy.copy: same Taxon objects, same order, same indices: the copy that
+   replaces the namespace under observation is indistinguishable (interface lemma; the content is
+   in the correspondence run, which really constructs the copy) *)
+Theorem copy_preserves_bits : forall (lower : lbl -> lbl) (w : world),
+  step lower w CopyConstruct = (w, OUnit).
+Proof. exact copy_preserves_bits_l. Qed.
+Print Assumptions copy_preserves_bits.
+
+(* ================= 3. one bit each, never shared ================= *)
+
+Theorem single_bit : forall (n : ns) (t : tid), Inv n -> In t (taxa n) ->
+  exists n' i, taxon_bitmask n t = Ok (n', Z.shiftl 1 i)
+    /\ alookup t (acc n) = Some i /\ 0 <= i < count n
+    /\ (forall k, Z.testbit (Z.shiftl 1 i) k = Z.eqb i k)
+    /\ 0 < Z.shiftl 1 i <= all_taxa_bitmask n
+    /\ (taxa n' = taxa n /\ acc n' = acc n /\ rev n' = rev n /\ count n' = count n
+        /\ is_mut n' = is_mut n /\ is_cs n' = is_cs n)
+    /\ Inv n'.
+Proof. exact single_bit_l. Qed.
+Print Assumptions single_bit.
+
+Theorem nonmember_no_bit : forall (n : ns) (t : tid),
+  Inv n -> ~ In t (taxa n) -> taxon_bitmask n t = Err KeyErr.
+Proof. exact nonmember_no_bit_l. Qed.
+Print Assumptions nonmember_no_bit.
+
+Theorem bits_distinct : forall (n : ns) (t1 t2 : tid),
+  Inv n -> In t1 (taxa n) -> In t2 (taxa n) -> t1 <> t2 ->
+  exists i1 i2 n1 n2,
+    alookup t1 (acc n) = Some i1 /\ alookup t2 (acc n) = Some i2 /\ i1 <> i2
+    /\ taxon_bitmask n t1 = Ok (n1, Z.shiftl 1 i1) /\ taxon_bitmask n t2 = Ok (n2, Z.shiftl 1 i2)
+    /\ Z.shiftl 1 i1 <> Z.shiftl 1 i2 /\ Z.land (Z.shiftl 1 i1) (Z.shiftl 1 i2) = 0.
+Proof. exact bits_distinct_l. Qed.
+Print Assumptions bits_distinct.
+
+(* ================= 4. taxa -> bitmask -> taxa ================= *)
+
+(* the loop `while bitmask: ... bitmask >>= 1` terminates within the model's fuel for every
+   non-negative bitmask (a negative one does not terminate in Python either) *)
+Theorem bitmask_taxa_list_fuel : forall (n : ns) (m idx : Z) (got : list tid), 0 <= m ->
+  bitmask_taxa_list n (bits_fuel m) m idx got <> OutOfFuel.
+Proof. exact bitmask_taxa_list_fuel_l. Qed.
+Print Assumptions bitmask_taxa_list_fuel.
+
+(* any bitmask whose set bits are live indices: exactly the members with those bits, by bit *)
+Theorem bitmask_taxa_list_members : forall (n : ns) (m : Z), Inv n -> 0 <= m ->
+  (forall k, 0 <= k -> Z.testbit m k = true -> exists t, alookup k (rev n) = Some t) ->
+  exists L, bitmask_taxa_list n (bits_fuel m) m 0 [] = Ok L
+    /\ (forall t, In t L <-> exists k, alookup t (acc n) = Some k /\ Z.testbit m k = true)
+    /\ StronglySorted (fun a c => match alookup a (acc n) with Some i => i | None => -1 end
+                                  < match alookup c (acc n) with Some i => i | None => -1 end) L
+    /\ NoDup L.
+Proof. exact bitmask_taxa_list_members_l. Qed.
+Print Assumptions bitmask_taxa_list_members.
+
+Theorem taxa_bitmask_roundtrip : forall (n : ns) (S : list tid),
+  Inv n -> NoDup S -> incl S (taxa n) ->
+  exists n' b L,
+    taxa_bitmask n S 0 = Ok (n', b)
+    /\ (taxa n' = taxa n /\ acc n' = acc n /\ rev n' = rev n /\ count n' = count n
+        /\ is_mut n' = is_mut n /\ is_cs n' = is_cs n)
+    /\ Inv n' /\ 0 <= b
+    /\ (forall k, 0 <= k -> (Z.testbit b k = true <-> exists t, In t S /\ alookup t (acc n) = Some k))
+    /\ bitmask_taxa_list n' (bits_fuel b) b 0 [] = Ok L
+    /\ Permutation L S
+    /\ StronglySorted (fun a c => match alookup a (acc n) with Some i => i | None => -1 end
+                                  < match alookup c (acc n) with Some i => i | None => -1 end) L.
+Proof. exact taxa_bitmask_roundtrip_l. Qed.
+Print Assumptions taxa_bitmask_roundtrip.
+
+(* the same as two consecutive API calls: never a KeyError, never out of fuel *)
+Theorem taxa_bitmask_roundtrip_steps : forall (lower : lbl -> lbl) (w : world) (S : list tid),
+  Inv (w_ns w) -> NoDup S -> incl S (taxa (w_ns w)) ->
+  exists w1 b L,
+    step lower w (TaxaBitmask S) = (w1, OInt b)
+    /\ step lower w1 (BitmaskTaxa b) = (w1, OTaxa L)
+    /\ Permutation L S
+    /\ StronglySorted (fun a c => match alookup a (acc (w_ns w)) with Some i => i | None => -1 end
+                                  < match alookup c (acc (w_ns w)) with Some i => i | None => -1 end) L
+    /\ (taxa (w_ns w1) = taxa (w_ns w) /\ acc (w_ns w1) = acc (w_ns w) /\ rev (w_ns w1) = rev (w_ns w)
+        /\ count (w_ns w1) = count (w_ns w)
+        /\ is_mut (w_ns w1) = is_mut (w_ns w) /\ is_cs (w_ns w1) = is_cs (w_ns w))
+    /\ w_lab w1 = w_lab w /\ w_next w1 = w_next w.
+Proof. exact taxa_bitmask_roundtrip_steps_l. Qed.
+Print Assumptions taxa_bitmask_roundtrip_steps.
+
+(* ================= 5. Newick rendering of a bitmask ================= *)
+
+(* left group = labels of exactly the members whose bit (by accession index, not by list position)
+   is set in m, in membership order; right group = the labels of the other members *)
+Theorem newick_rendering_names_exactly : forall (lower : lbl -> lbl) (w : world) (m : Z),
+  Inv (w_ns w) ->
+  ((m = 0 \/ m = all_taxa_bitmask (w_ns w)) ->
+     step lower w (NewickGroups m) = (w, OGroup1 (map (label_of w) (taxa (w_ns w)))))
+  /\ (m <> 0 -> m <> all_taxa_bitmask (w_ns w) ->
+      exists n',
+        step lower w (NewickGroups m)
+        = (set_ns w n',
+           OGroups
+             (map (label_of w)
+                (filter (fun t => match alookup t (acc (w_ns w)) with
+                                  | Some i => Z.testbit m i | None => false end) (taxa (w_ns w))))
+             (map (label_of w)
+                (filter (fun t => negb (match alookup t (acc (w_ns w)) with
+                                        | Some i => Z.testbit m i | None => false end)) (taxa (w_ns w)))))
+        /\ (taxa n' = taxa (w_ns w) /\ acc n' = acc (w_ns w) /\ rev n' = rev (w_ns w)
+            /\ count n' = count (w_ns w)
+            /\ is_mut n' = is_mut (w_ns w) /\ is_cs n' = is_cs (w_ns w))
+        /\ Inv n').
+Proof. exact newick_rendering_names_exactly_l. Qed.
+Print Assumptions newick_rendering_names_exactly.
+
+(* ================= 6. label lookups, require, immutability, removal by label ================= *)
+
+(* findall: exactly the members whose label matches under the namespace's, or the call's,
+   case-sensitivity setting, in membership order; nothing changes *)
 Theorem findall_spec : forall (lower : lbl -> lbl) (w : world) (l : lbl) (cs : option bool),
   step lower w (FindAll l cs)
   = (w, OTaxa (filter (matches lower w (use_cs (w_ns w) cs) l) (taxa (w_ns w)))).
 Proof. exact findall_spec_l. Qed.
 Print Assumptions findall_spec.
+
+(* get_taxon: the first matching member in membership order, None iff nothing matches *)
+Theorem get_taxon_first : forall (lower : lbl -> lbl) (w : world) (l : lbl) (cs : option bool),
+  let f := matches lower w (use_cs (w_ns w) cs) l in
+  (forall t, step lower w (GetTaxon l cs) = (w, OTax (Some t)) <->
+     exists pre post, taxa (w_ns w) = pre ++ t :: post
+                      /\ (forall x, In x pre -> f x = false) /\ f t = true)
+  /\ (step lower w (GetTaxon l cs) = (w, OTax None) <->
+        forall x, In x (taxa (w_ns w)) -> f x = false)
+  /\ step lower w (GetTaxon l cs) = (w, OTax (hd_error (filter f (taxa (w_ns w))))).
+Proof. exact get_taxon_first_l. Qed.
+Print Assumptions get_taxon_first.
+
+Theorem has_label_spec : forall (lower : lbl -> lbl) (w : world) (l : lbl) (cs : option bool),
+  exists b, step lower w (HasLabel l cs) = (w, OBool b)
+    /\ (b = true <-> exists t, In t (taxa (w_ns w)) /\ matches lower w (use_cs (w_ns w) cs) l t = true).
+Proof. exact has_label_spec_l. Qed.
+Print Assumptions has_label_spec.
+
+(* require_taxon: the first match and an unchanged world; or TypeError (immutable) and an
+   unchanged world; or exactly one new member: a fresh object, appended last, with the old counter
+   as its index, the requested label, nothing else touched *)
+Theorem require_taxon_spec : forall (lower : lbl -> lbl) (w : world) (l : lbl) (cs : option bool),
+  (forall t r, lookup_all lower w l cs = t :: r ->
+     step lower w (RequireTaxon l cs) = (w, OTax (Some t)))
+  /\ (lookup_all lower w l cs = [] -> is_mut (w_ns w) = false ->
+        step lower w (RequireTaxon l cs) = (w, OErr TypeErr))
+  /\ ((Inv (w_ns w) /\ forall t, In t (taxa (w_ns w)) -> t < w_next w) ->
+      lookup_all lower w l cs = [] -> is_mut (w_ns w) = true ->
+      exists w', step lower w (RequireTaxon l cs) = (w', OTax (Some (w_next w)))
+        /\ ~ In (w_next w) (taxa (w_ns w))
+        /\ taxa (w_ns w') = taxa (w_ns w) ++ [w_next w]
+        /\ alookup (w_next w) (acc (w_ns w')) = Some (count (w_ns w))
+        /\ count (w_ns w') = count (w_ns w) + 1
+        /\ label_of w' (w_next w) = l
+        /\ (forall t, t <> w_next w ->
+              label_of w' t = label_of w t /\ alookup t (acc (w_ns w')) = alookup t (acc (w_ns w)))
+        /\ w_next w' = w_next w + 1
+        /\ is_mut (w_ns w') = true /\ is_cs (w_ns w') = is_cs (w_ns w)).
+Proof. exact require_taxon_spec_l. Qed.
+Print Assumptions require_taxon_spec.
+
+(* an immutable namespace never gains a member, and stays immutable, under every operation
+   except switching mutability back on / replacing the namespace by a deep copy *)
+Theorem immutable_never_grows : forall (lower : lbl -> lbl) (w : world) (o : op),
+  is_mut (w_ns w) = false -> (forall b, o <> SetMutable b) -> o <> DeepCopy ->
+  incl (taxa (w_ns (fst (step lower w o)))) (taxa (w_ns w))
+  /\ is_mut (w_ns (fst (step lower w o))) = false.
+Proof. exact immutable_never_grows_l. Qed.
+Print Assumptions immutable_never_grows.
+
+Theorem immutable_run_never_grows : forall (lower : lbl -> lbl) (w : world) (ops : list op),
+  is_mut (w_ns w) = false -> (forall b, ~ In (SetMutable b) ops) -> ~ In DeepCopy ops ->
+  incl (taxa (w_ns (run_world lower w ops))) (taxa (w_ns w))
+  /\ is_mut (w_ns (run_world lower w ops)) = false.
+Proof. exact immutable_run_never_grows_l. Qed.
+Print Assumptions immutable_run_never_grows.
+
+(* remove_taxon_label: LookupError and nothing changed when nothing matches; otherwise exactly
+   the first match (first_match_only) or exactly all matches are removed: order of the others,
+   their indices, the counter, flags and labels unchanged *)
+Theorem remove_label_spec :
+  forall (lower : lbl -> lbl) (w : world) (l : lbl) (cs : option bool) (first : bool),
+  (lookup_all lower w l cs = [] -> step lower w (RemoveLabel l cs first) = (w, OErr LookupErr))
+  /\ (forall t r, Inv (w_ns w) -> lookup_all lower w l cs = t :: r ->
+        exists w', step lower w (RemoveLabel l cs first) = (w', OUnit)
+          /\ taxa (w_ns w')
+             = filter (fun x => negb (memb x (if first then [t] else t :: r))) (taxa (w_ns w))
+          /\ (forall x, alookup x (acc (w_ns w'))
+                        = if memb x (if first then [t] else t :: r) then None
+                          else alookup x (acc (w_ns w)))
+          /\ count (w_ns w') = count (w_ns w)
+          /\ is_mut (w_ns w') = is_mut (w_ns w) /\ is_cs (w_ns w') = is_cs (w_ns w)
+          /\ w_lab w' = w_lab w /\ w_next w' = w_next w).
+Proof. exact remove_label_spec_l. Qed.
+Print Assumptions remove_label_spec.
+
+Theorem discard_label_spec :
+  forall (lower : lbl -> lbl) (w : world) (l : lbl) (cs : option bool) (first : bool),
+  (lookup_all lower w l cs = [] -> step lower w (DiscardLabel l cs first) = (w, OUnit))
+  /\ (forall t r, Inv (w_ns w) -> lookup_all lower w l cs = t :: r ->
+        exists w', step lower w (DiscardLabel l cs first) = (w', OUnit)
+          /\ taxa (w_ns w')
+             = filter (fun x => negb (memb x (if first then [t] else t :: r))) (taxa (w_ns w))
+          /\ (forall x, alookup x (acc (w_ns w'))
+                        = if memb x (if first then [t] else t :: r) then None
+                          else alookup x (acc (w_ns w)))
+          /\ count (w_ns w') = count (w_ns w)
+          /\ is_mut (w_ns w') = is_mut (w_ns w) /\ is_cs (w_ns w') = is_cs (w_ns w)
+          /\ w_lab w' = w_lab w /\ w_next w' = w_next w).
+Proof. exact discard_label_spec_l. Qed.
+Print Assumptions discard_label_spec.
